@@ -227,6 +227,8 @@ def run(repo: Repo, rep: Report, tier: str) -> None:
     rep.floor("queue gets in actions", n_gets, 20)
     # the producers: an event for a decoded PDU is queued together with the PDU; a primitive event only when a primitive is at the head of the queue
     from ..delegate import delegate as _delegate
+    rep.rule("timer-run-state", "a timer the state machine has stopped stays stopped; a connect failure becomes Evt17 (C04's artim-run-state / connect-failure)")
+    _delegate(repo, rep, tier, "C04", ("artim-run-state", "connect-failure"), "timer-run-state", "an event arrives in a state that has no transition for it (Evt18 in Sta6) or none arrives where one is required (Sta4): the provider thread dies with InvalidEventError / the exception, no A-ABORT is sent and the provider never returns to idle by itself")
     _delegate(repo, rep, tier, "C03", ("one-per-call",), "queue-guard", "an action's get(False) on _recv_pdu finds nothing (queue.Empty kills the provider thread) or a PDU left over from an earlier, event-less read")
     prp = repo.func("dul", "DULServiceProvider._process_recv_primitive")
     srcp = [norm(s) for s in walk_no_nested(prp) if isinstance(s, ast.stmt)]
